@@ -204,6 +204,17 @@ def accepting_cli(ftype, tier, seen, st, failures):
             reps.append((h, norm.render(rp.lines + norm.completion(rp.st))))
     step = max(1, len(reps) // CLI_CAP[tier])
     chosen = reps[::step]
+    # ... and one accepting representative per block of the alphabet (a static global brings a Notice, a wrapped call
+    # two physical lines, ...): the command-level oracle must see every kind of block at least once
+    # (state representatives are shortest histories and never hold a block that leaves no trace in the state, such
+    # as a global followed by a function; the carrier set has every block in at least one complete file)
+    from .. import carriers
+    covered = set(i for h, _ in chosen for i in h[2])
+    for c in carriers.conforming("quick", ftypes=(ftype,)):
+        new = set(c["ids"]) - covered
+        if new:
+            chosen.append(((ftype, tier, tuple(c["ids"])), c["text"]))
+            covered |= new
     res = explore.pmap(progrun.cli_text, [("test" + ftype, text, ["--no-colors"]) for _, text in chosen], chunksize=4)
     st.runs += len(chosen)
     st.bump(f"accepting_states{ftype}", len(reps))
@@ -213,7 +224,7 @@ def accepting_cli(ftype, tier, seen, st, failures):
         if not ok:
             failures.append(Failure("C01", f"cli:exit={o['code']}:exc={o['exc'][0] if o['exc'] else None}",
                                     f"main() on a conforming file: exit {o['code']}, stdout {o['stdout'][:80]!r}",
-                                    {"ftype": ftype, "ids": list(h[2]), "tier": tier, "kind": "cli"}))
+                                    {"ftype": ftype, "ids": list(h[2]), "tier": tier, "kind": "cli", "text": text}))
     # real subprocess for a fixed handful (harness conformance of the in-process driver)
     import os
     import tempfile
@@ -230,7 +241,7 @@ def accepting_cli(ftype, tier, seen, st, failures):
                 failures.append(Failure("C01", f"cli-subprocess:exit={o['code']}",
                                         f"python -m norminette on a conforming file: exit {o['code']}, "
                                         f"stdout {o['stdout'][:80]!r} stderr {o['stderr'][-120:]!r}",
-                                        {"ftype": ftype, "ids": list(h[2]), "tier": tier, "kind": "cli"}))
+                                        {"ftype": ftype, "ids": list(h[2]), "tier": tier, "kind": "cli", "text": text}))
         finally:
             shutil.rmtree(d, ignore_errors=True)
 
@@ -280,8 +291,11 @@ def replay(payload):
     h = (payload["ftype"], payload["tier"], tuple(payload["ids"]))
     if payload.get("kind") == "cli":
         ftype = payload["ftype"]
-        rp = norm.replay(ftype, h[2], progrun.BOUNDS[payload["tier"]], "test" + ftype)
-        o = progrun.cli_text(("test" + ftype, norm.render(rp.lines + norm.completion(rp.st)), ["--no-colors"]))
+        text = payload.get("text")
+        if text is None:
+            rp = norm.replay(ftype, h[2], progrun.BOUNDS[payload["tier"]], "test" + ftype)
+            text = norm.render(rp.lines + norm.completion(rp.st))
+        o = progrun.cli_text(("test" + ftype, text, ["--no-colors"]))
         if not (o["code"] == 0 and o["stdout"].startswith(f"test{ftype}: OK!") and o["exc"] is None):
             return [Failure("C01", f"cli:exit={o['code']}:exc={o['exc'][0] if o['exc'] else None}", str(o)[:200], payload)]
         return []
